@@ -286,13 +286,19 @@ def program(draw):
     elif kind == "upsert_select":
         # INSERT .. SELECT over two joined sources .. ON CONFLICT: the select qualifies its columns, the conflict clause must not
         tk = draw(st.sampled_from(["P", "B"]))
-        fk, gk = draw(st.sampled_from([("D", "SA"), ("A", "D"), ("S", "A")]))
-        sources += [fk, gk]
+        fk, gk = draw(st.sampled_from([("D", "SA"), ("A", "D"), ("S", "A"), ("D", None), ("S", None)]))
         steps.append(["into", [["src", tk]]])
         steps.append(["columns", [b.f(tk, "insert_columns"), b.f(tk, "insert_columns")]])
         steps.append(["from_", [["src", fk]]])
-        steps.append(["join", [["src", gk], ["enum", "JoinType", "inner"]], {}, ["on", [["eq", b.f(fk, "on"), b.f(gk, "on")]]]])
-        steps.append(["select", [b.f(fk, "select"), b.f(gk, "select")]])
+        if gk is None:
+            # one plain source: the SELECT part is bare, but a value the conflict handler takes from that source needs its name
+            sources += [fk]
+            steps.append(["select", [b.f(fk, "select"), b.f(fk, "select")]])
+            gk = fk
+        else:
+            sources += [fk, gk]
+            steps.append(["join", [["src", gk], ["enum", "JoinType", "inner"]], {}, ["on", [["eq", b.f(fk, "on"), b.f(gk, "on")]]]])
+            steps.append(["select", [b.f(fk, "select"), b.f(gk, "select")]])
         steps.append(["on_conflict", [b.f(tk, "conflict_target")]])
         # MySQL's ON DUPLICATE KEY UPDATE may take the new value from a source of the SELECT: that reference needs its source's name
         steps.append(["do_update", [b.f(tk, "conflict_set_target"), b.f(gk, "conflict_value_source") if cls == "mysql" else ["raw", 1]]])
@@ -301,7 +307,7 @@ def program(draw):
             nm = "f%d" % b.n
             b.occ.append([nm, tk, "conflict_excluded"])
             steps.append(["do_update", [["py", nm]]])
-        meta["select_sources"] = [fk, gk]
+        meta["select_sources"] = sorted({fk, gk})
     elif kind in ("update", "update_from", "update_join"):
         tk = draw(st.sampled_from(["P", "B", "S", "A"]))
         sources.append(tk)
@@ -368,7 +374,7 @@ def multi_source(case):
     if kind == "insert_select":
         return False
     if kind == "upsert_select":
-        return True  # the SELECT part has two sources
+        return len(srcs) > 1  # the SELECT part usually has two sources
     if kind in ("insert", "upsert", "delete", "update"):
         return bool(case.get("foreign"))
     if kind in ("update_from", "update_join"):
@@ -386,6 +392,8 @@ def expected(case, key, pos):
         return ("either", name) if is_aliased(key, case) else None
     if pos in EITHER_POS:
         return ("either", name)
+    if pos == "conflict_value_source":
+        return name  # target row and source row are both in scope there: a bare column means the target's
     if pos in ("corr_outer", "corr_inner", "corr_select"):
         return name  # the inner query refers to a table of the outer one: both of its namespaces are needed
     if is_aliased(key, case) or multi_source(case):
